@@ -129,6 +129,13 @@ def run(ctx):
     memo_rule(ctx, 'R06e', 'SuperNetCombiner.get_cost', gc, 1, 2)
     sgc = repo.cls('SuperNet').methods['_get_single_cost']
     memo_rule(ctx, 'R06e', 'SuperNet._get_single_cost', sgc, 1, 2)
+    # "under hard selection the cost equals the metric of the exported network": the exported
+    # network is the selected one (the export rules of C03, as a premise)
+    from . import c03
+    before = len(ctx.obligations)
+    c03.run(ctx)
+    for o in ctx.obligations[before:]:
+        o.rule = 'R06i'
     from .c04 import accumulation_rule, leaf_lists_rule, lookup_key_rule
     lookup_key_rule(ctx, 'R06h', 'SuperNet')
     leaf_lists_rule(ctx, 'R06g', 'SuperNet')
